@@ -86,6 +86,8 @@ def interop_jwe():
     from vlib import refjose as R
     from joserfc import jwe
     from joserfc.jwk import JWKRegistry
+    from joserfc.drafts.jwe_chacha20 import register_chaha20_poly1305
+    register_chaha20_poly1305()          # C20P / XC20P (the independent side: pyca ChaCha20-Poly1305 + a pure-Python HChaCha20)
     algs = {"dir": None, "A128KW": "oct16", "A192KW": "oct24", "A256KW": "oct32", "A128GCMKW": "oct16", "A192GCMKW": "oct24", "A256GCMKW": "oct32",
             "RSA1_5": "RSA2048", "RSA-OAEP": "RSA2048", "RSA-OAEP-256": "RSA2048", "ECDH-ES": "P-256", "ECDH-ES+A128KW": "P-384", "ECDH-ES+A192KW": "X25519",
             "ECDH-ES+A256KW": "P-521", "PBES2-HS256+A128KW": "oct24", "PBES2-HS384+A192KW": "oct24", "PBES2-HS512+A256KW": "oct24"}
@@ -114,7 +116,7 @@ def interop_jwe():
                 try:
                     add, ek, cek = R.key_manage(alg, enc, pubj, apu=b"Alice" if alg.startswith("ECDH") else None, apv=b"Bob" if alg.startswith("ECDH") else None)
                     h2 = {"alg": alg, "enc": enc, **({"zip": "DEF"} if zipped else {}), **add}
-                    t2 = R.compact_encrypt(h2, pt, cek, ek, bytes(range(12 if "GCM" in enc else 16)), header_text=json.dumps(h2, indent=2).encode())
+                    t2 = R.compact_encrypt(h2, pt, cek, ek, bytes(range({"gcm": 12, "cbc": 16}.get(R.ENC[enc][0], R.ENC[enc][2]))), header_text=json.dumps(h2, indent=2).encode())
                     o = jwe.decrypt_compact(t2, key, algorithms=[alg, enc, "DEF"])
                     if o.plaintext != pt:
                         bad.append("ref->joserfc %s %s: plaintext differs" % (alg, enc))
@@ -145,10 +147,11 @@ def plan(tier):
     if q:
         pairs = sorted(set([(a, (1, 4, 2, 5, 0, 3, 7, 6)[a % 8]) for a in range(21)] + [((5, 0, 9, 10, 2, 12, 15, 19)[e], e) for e in range(8)]))
     else:
-        pairs = [(a, e) for a in range(21) for e in range(8)]
+        # deep: every algorithm with one enc per class (CBC-HS, GCM, C20P) + XC20P, and every enc with three algorithms
+        pairs = sorted(set([(a, e) for a in range(21) for e in (0, 3, 6, 7)] + [(a, e) for a in (3, 7, 14) for e in range(8)]))
     p4, n4 = gen.specialise("c04_roundtrip.py", [("roundtrip_layout", pairs), ("roundtrip_options", pairs)], "c08_gen4.py")
     conds = [Cond(p4, n, "main", T, "producer conformance: AAD, AL, key split, tag truncation, RSA padding, GCM-KW iv/tag, PBES2 salt/count, Concat-KDF Z and other-info (1PU: Ze||Zs, tag), raw DEFLATE (%s)" % n) for n in n4]
-    conds += [Cond("c02_jwe.py", n, "main", T, "consumer: " + n) for n in ("compact_dir", "compact_kw", "compact_gcmkw", "compact_rsa", "compact_ecdh", "compact_ecdhkw", "compact_pbes2", "compact_1pu", "flattened_json")]
+    conds += [Cond("c02_jwe.py", n, "main", T, "consumer: " + n) for n in ("compact_dir", "compact_kw", "compact_gcmkw", "compact_rsa", "compact_ecdh", "compact_ecdhkw", "compact_pbes2", "compact_1pu", "compact_chacha", "flattened_json")]
     conds += [Cond("c04_roundtrip.py", "witness", "witness", 300)]
     sizes = [(-1, -1, -1), (0, 0, -1), (1, 4, -1), (3, 2, 4)] if q else [(a, b, t) for a in (-1, 0, 1, 3, 4) for b in (-1, 0, 2, 4) for t in (-1, 0, 4)]
     obls = [Obl("vlib.props.c08", "concat_kdf_info", {"mode": m, "apu_len": a, "apv_len": b, "tag_len": t}, "Concat KDF other-info layout", 600)
@@ -169,4 +172,4 @@ def plan(tier):
         "stubs": ["as in C02 / C04"],
         "assumptions": ["refjose is a faithful independent reading of RFC 7516/7518"],
     }
-    return {"conds": conds, "obls": obls, "meta": meta}
+    return {"conds": conds, "obls": obls, "meta": meta, "deep_wall": 1500}
